@@ -133,6 +133,8 @@ pub struct Interpreter<'a, R: RealNumberInternalTrait> {
     pub env: Rc<Environment<R>>,
     lib_loader: LibraryLoader<'a, R>,
     imported_library: HashSet<LibraryName>,
+    // the libraries instantiated so far: every import of a library within one program refers to this one instance
+    lib_instances: HashMap<LibraryName, Library<R>>,
     import_end: bool, // indicate program's import declaration part end
     pub program_directory: Option<PathBuf>,
     _marker: PhantomData<R>,
@@ -150,6 +152,7 @@ impl<'a, R: RealNumberInternalTrait> Interpreter<'a, R> {
             env: environment,
             lib_loader: LibraryLoader::default(),
             imported_library: HashSet::new(),
+            lib_instances: HashMap::new(),
             import_end: false,
             program_directory: None,
             _marker: PhantomData,
@@ -178,6 +181,9 @@ impl<'a, R: RealNumberInternalTrait> Interpreter<'a, R> {
             .extend(lib_loader.lib_factories.into_iter());
     }
     pub fn register_library_factory(&mut self, library_factory: LibraryFactory<'a, R>) {
+        // a newly registered definition replaces an instance made from the old one
+        self.lib_instances
+            .remove(library_factory.get_library_name());
         self.lib_loader.register_library_factory(library_factory);
     }
 
@@ -513,6 +519,9 @@ impl<'a, R: RealNumberInternalTrait> Interpreter<'a, R> {
         }
     }
     pub fn get_library(&mut self, name: Located<LibraryName>) -> Result<Library<R>> {
+        if let Some(instance) = self.lib_instances.get(name.deref()) {
+            return Ok(instance.clone());
+        }
         let factory = match self.lib_loader.lib_factories.get(&name) {
             Some(factory) => factory,
             None => {
@@ -524,7 +533,10 @@ impl<'a, R: RealNumberInternalTrait> Interpreter<'a, R> {
             }
         }
         .clone();
-        self.new_library(&factory)
+        let library = self.new_library(&factory)?;
+        self.lib_instances
+            .insert(name.deref().clone(), library.clone());
+        Ok(library)
     }
     pub fn eval_import_set(&mut self, import: &ImportSet) -> Result<Vec<(String, Value<R>)>> {
         match &import.data {
